@@ -52,22 +52,22 @@ CHECKS = {
 EXTRA = {
     "C01": "also circuits made through the CircuitBuilder objects (numpy numbers) and circuits derived from the parts of a circuit that was already written out (re-used header objects, renamed copy() of each macro)",
     "C02": "near misses also carry comments (multi-line block comments included); header-only entry points compared with the header of the full parse",
-    "C03": "busy gates with a unitary, repeated prepare, stretched variants, integer overrides, overrides applied after macro expansion (passes or parser options), programs run through run_jaqal_string / run_jaqal_file with their gates loaded from a pulse module",
-    "C04": "statements re-made by hand as GateStatement(definition, {name: value}) with the names in another order; wrong-arity calls nested in blocks, loops and other macros",
+    "C03": "busy gates with a unitary, repeated prepare, stretched variants, integer overrides, overrides applied after macro expansion (passes or parser options), programs run through run_jaqal_string / run_jaqal_file with their gates loaded from a pulse module; one gate applied at near-twin arguments (integers that one double stands for, doubles next to each other), the parsed circuit compared with the program as written",
+    "C04": "statements re-made by hand as GateStatement(definition, {name: value}) with the names in another order; wrong-arity calls nested in blocks, loops and other macros; number kind (int / float) of gate arguments kept by the substitution; refused expansions inside macro bodies followed by the valid program again",
     "C05": "the parser's own substitution routes (expand_let, expand_let_map); a quarter of the programs over the native gate set with that gate set in force",
-    "C06": "references that denote no element must be refused by every consumer; whole registers and aliases as gate arguments (element-wise resolution, used-qubit analysis, fill_in_map)",
+    "C06": "references that denote no element must be refused by every consumer; whole registers and aliases as gate arguments (element-wise resolution, used-qubit analysis, fill_in_map); an indexed argument handed on to an inner macro that has a parameter of the same name (call-site analysis of the call statement)",
     "C07": "used-qubit analysis of calls in place and fill_in_map read back by name as further consumers; parameters handed over as Parameter objects",
     "C08": "programs also built from S-expressions with subcircuit blocks directly as loop bodies; negative counts judged for termination only; valid programs refused at build time are violations",
     "C09": "gate sets holding exactly one of the two bounding gates and caller names of which one is missing; subcircuit bodies with their own prepare/measure; statement-count invariant",
-    "C10": "programs with the gate set in force, with their gates loaded from a pulse module, and C06's alias-chain programs; parser flags combined with return_usepulses and the file entry point",
+    "C10": "programs with the gate set in force, with their gates loaded from a pulse module, and C06's alias-chain programs; parser flags combined with return_usepulses and the file entry point; subcircuit counts kept until expand_subcircuits has run; aliases declared outside a macro and bounded by a constant, used inside a macro whose parameter has that constant's name",
     "C11": "circuits holding the experimental branch statement",
-    "C12": "idle-gate variants, overridden loop counts in both pipeline orders, circuits built through the CircuitBuilder (macros whose body is a subcircuit block), circuits that grow between two runs, two-level macros whose names hold other content from program to program, refusals at build time judged",
-    "C13": "call-site scope analysis with a step budget, typed macro parameters, forwarding macros, the busy native gate (also stretched) beside an active gate, whole registers and aliases as arguments",
-    "C14": "counting-down and empty aliases, faults behind let / override / macro argument, CircuitBuilder route with the statements inside eagerly built loops of four shapes, import-precedence probes",
+    "C12": "idle-gate variants, overridden loop counts in both pipeline orders, circuits built through the CircuitBuilder (macros whose body is a subcircuit block), circuits that grow between two runs, two-level macros whose names hold other content from program to program, refusals at build time judged; one subcircuit object per prepare/measure pair, numbered in flat order, readouts filed under their own pair; macros expanded (pass or parser option) before the run",
+    "C13": "call-site scope analysis with a step budget, typed macro parameters, forwarding macros, the busy native gate (also stretched) beside an active gate, whole registers and aliases as arguments; bounding gates (busy) inside a parallel block beside an active gate, through the emulator and the output-list reader",
+    "C14": "counting-down and empty aliases, faults behind let / override / macro argument, CircuitBuilder route with the statements inside eagerly built loops of four shapes, import-precedence probes; the other pass order (macros first, by passes and by the parser's options) for every fault; overridden constants handed to macros as index arguments",
     "C15": "every string view handed out is kept and compared again after all other views were requested; deprecated and fractional views; output lists for programs without the harness gate set",
-    "C16": "hang probes in child processes, exact lexical positions, overflow templates, non-register templates, run_jaqal_string entry, import histories over five module layouts (relative / absolute, modules that fail while loading), missing search directories",
+    "C16": "hang probes in child processes, exact lexical positions, overflow templates, non-register templates, run_jaqal_string entry, import histories over five module layouts (relative / absolute, modules that fail while loading), missing search directories; parse_to_sexpression and the header-only entry point with and without return_usepulses must agree in outcome and position",
     "C17": "random layout and comments on the text route, near-twin number literals, objects built eagerly or unevaluated",
-    "C18": "numpy numbers, values false in a truth test, constants defined through constants, one definition object shared by all calls of a signature, stretched_gates(update=True) with arbitrary keys, idle gates with names of their own, stretched variants called",
+    "C18": "numpy numbers, values false in a truth test, constants defined through constants, one definition object shared by all calls of a signature, stretched_gates(update=True) with arbitrary keys, idle gates with names of their own, stretched variants called; stretched variants derived for two gate models with the same names and signatures in one process",
     "C19": "zero counts, same-kind nestings and unscheduled / shared block objects assembled from core constructors, macros whose bodies are not in normal form, the same import twice",
     "C20": "near-twin statements with hash-equal integers, loop/subcircuit exchange mutants, one text parsed with the shared gate set right after a near twin and with a gate set of its own",
 }
